@@ -9,8 +9,8 @@ import (
 	"strings"
 	"time"
 
-	"github.com/notaryproject/notation-core-go/signature"
 	revresult "github.com/notaryproject/notation-core-go/revocation/result"
+	"github.com/notaryproject/notation-core-go/signature"
 	"github.com/notaryproject/notation-go"
 	"github.com/notaryproject/notation-go/plugin"
 	pf "github.com/notaryproject/notation-plugin-framework-go/plugin"
@@ -33,11 +33,11 @@ func (c02) Rule() string {
 }
 func (c02) Components() map[string]string {
 	return map[string]string{
-		"verifier.Verify / processSignature / processPluginResponse": "real",
+		"verifier.Verify / processSignature / processPluginResponse":             "real",
 		"trust store, revocation validator, plugin manager, verification plugin": "recording scripted stubs at the exported interfaces (their call logs are part of the observation)",
-		"signatures with extended attributes": "notation-core-go SignRequest (real dependency)",
-		"clock":            "synctest bubble (expiry and certificate windows pass by advancing simulated time)",
-		"reference model":  "relative decision function over the reported results + collaborator logs; replica monotonicity",
+		"signatures with extended attributes":                                    "notation-core-go SignRequest (real dependency)",
+		"clock":                                                                  "synctest bubble (expiry and certificate windows pass by advancing simulated time)",
+		"reference model":                                                        "relative decision function over the reported results + collaborator logs; replica monotonicity",
 	}
 }
 
@@ -45,7 +45,7 @@ var c02Factors = []struct {
 	name string
 	n    int64
 }{{"base", 3}, {"bits", 256}, {"anchor", 4}, {"identity", 3}, {"expiry", 3}, {"certTime", 2}, {"revocation", 4}, {"plugin", 10},
-	{"vIdentity", 3}, {"vRevocation", 3}, {"callErr", 2}, {"crit", 3}, {"scheme", 2}, {"format", 2}, {"legacy", 2}, {"pver", 6}, {"prelude", 6}, {"entry", 2}}
+	{"vIdentity", 3}, {"vRevocation", 3}, {"callErr", 2}, {"crit", 3}, {"scheme", 2}, {"format", 2}, {"legacy", 2}, {"pver", 6}, {"prelude", 6}, {"entry", 2}, {"ctor", 2}}
 
 func (c02) Gen(r *rand.Rand, tier string, idx int) *core.Plan {
 	w := map[string]int64{}
@@ -89,6 +89,7 @@ func (c02) Gen(r *rand.Rand, tier string, idx int) *core.Plan {
 	w["pver"] = healthy(6, 60)
 	w["prelude"] = healthy(6, 60)
 	w["entry"] = r.Int64N(2)
+	w["ctor"] = r.Int64N(2)
 	return p
 }
 
@@ -284,7 +285,7 @@ func (l c02) Exec(env *core.Env) *core.Result {
 					listedStores[0], listedStores[1] = listedStores[1], listedStores[0]
 				}
 			}
-			v, err := buildVerifier(vcfg{level: levelName, override: override, stores: listedStores, identities: identities, store: store, validator: val, legacy: w["legacy"] == 1, mgr: mgr})
+			v, err := buildVerifier(vcfg{level: levelName, override: override, stores: listedStores, identities: identities, store: store, validator: val, legacy: w["legacy"] == 1, mgr: mgr, ctor: w["ctor"]})
 			if err != nil {
 				res.Violate("HARNESS/verifier", "", "%v", err)
 				return
